@@ -54,6 +54,29 @@ def word_inputs(kw, rng, n):
     return out[:n]
 
 
+def string_inputs(pats, rng, n):
+    base = ["", " ", "*", ":", "x", "PRIVATEX", "PUBLIC ", " PASS"]
+    for p in pats:
+        base += [p, p.lower(), p.capitalize(), p.swapcase(), p + " ", " " + p, p + "X", p[:-1], p + p]
+    out = list(base)
+    while len(out) < n:
+        out.append(_mut(rng, rng.choice(base)))
+    return out[:n]
+
+
+def bracket_inputs(br, rng, n):
+    k = len(br) // 2
+    lft, rgt = br[:k], br[k:]
+    inners = ["a", " a ", "", " ", "a, b", "(a)", "a)(b", lft, rgt, "1:2", "'s'", "a" + rgt]
+    base = ["", lft, rgt, lft + rgt, rgt + lft, "x", lft + "a", "a" + rgt]
+    for i in inners:
+        base += [lft + i + rgt, " " + lft + i + rgt + " ", lft + " " + i + rgt, "x" + lft + i + rgt, lft + i + rgt + "x"]
+    out = list(base)
+    while len(out) < n:
+        out.append(_mut(rng, rng.choice(base)))
+    return out[:n]
+
+
 def _codes(s):
     return "[" + ";".join(str(ord(c)) for c in s) + "]"
 
@@ -106,11 +129,36 @@ def run_python(seed, per_class):
             else:
                 exp = "(WRest (T %s))" % _codes(r[1]) if r[0] == kw else "WWRONG"
             cases.append(("W", (std + ":" + name, kw, has, colons, req), s, exp, None))
-    return cases, len(ends), len(words), skipped
+    for std, name, pats, fold in T.STRINGS:
+        ParserFactory().create(std=std)
+        cls = getattr(F8 if std == "f2008" else F3, name)
+        for s in string_inputs(pats, rng, per_class):
+            if not all(32 <= ord(c) < 127 for c in s):
+                continue
+            r = cls.match(s)
+            exp = "None" if r is None else ("(Some (T %s))" % _codes(r[0]) if len(r) == 1 else "SWRONG")
+            cases.append(("S", (std + ":" + name, pats, fold), s, exp, None))
+    for std, name, br, has, req in T.BRACKETS:
+        probe = (lambda line: line) if has else None
+        for s in bracket_inputs(br, rng, per_class):
+            if not all(32 <= ord(c) < 127 for c in s):
+                continue
+            r = utils.BracketBase.match(br, probe, s, require_cls=req)
+            k = len(br.replace(" ", "")) // 2
+            if r is None:
+                exp = "BNo"
+            elif (r[0], r[2]) != (br.replace(" ", "")[:k], br.replace(" ", "")[k:]):
+                exp = "BWRONG"
+            elif r[1] is None:
+                exp = "BEmpty"
+            else:
+                exp = "(BIn (T %s))" % _codes(r[1])
+            cases.append(("B", (std + ":" + name, br, has, req), s, exp, None))
+    return cases, len(ends), len(words), skipped, len(T.STRINGS), len(T.BRACKETS)
 
 
 def corr(seed, per_class):
-    cases, nend, nword, skipped = run_python(seed, per_class)
+    cases, nend, nword, skipped, nstr, nbr = run_python(seed, per_class)
     b = lambda x: "true" if x else "false"    # noqa
     lines = ["From Coq Require Import List Bool Arith Ascii.", "From FV Require Import SplitLine Text Reader StmtBase.",
              "Import ListNotations.", "Definition T (l : list nat) : text := map ch l.",
@@ -121,25 +169,35 @@ def corr(seed, per_class):
              "Definition E st nm rq s ex (pr : option text) : bool := let r := end_match (T st) nm rq (T s) in "
              "endres_eqb r ex && match pr with Some p => text_eqb (end_tostr (T st) r) p | None => true end.",
              "Definition W kw h c rq s ex : bool := wordres_eqb (word_match (T kw) h c rq (T s)) ex.",
+             "Definition SM (ps : list (list nat)) fo s (ex : option text) : bool := match strings_match (map T ps) fo (T s), ex with "
+             "Some a, Some b => text_eqb a b | None, None => true | _, _ => false end.",
+             "Definition bres_eqb (a b : bres) : bool := match a, b with BNo, BNo | BEmpty, BEmpty => true "
+             "| BIn x, BIn y => text_eqb x y | _, _ => false end.",
+             "Definition B br h rq s ex : bool := bres_eqb (bracket_match (T br) h rq (T s)) ex.",
              "Fixpoint bad (l : list bool) (i : nat) : list nat := match l with [] => [] | x :: r => "
              "if x then bad r (S i) else i :: bad r (S i) end.", "Definition cases : list bool := ["]
     rows = []
     for kind, par, s, exp, printed in cases:
-        if exp in ("EWRONG", "WWRONG"):
+        if exp in ("EWRONG", "WWRONG", "SWRONG", "BWRONG"):
             rows.append("false")
         elif kind == "E":
             rows.append("E %s %s %s %s %s %s" % (_codes(par[1]), b(par[2]), b(par[3]), _codes(s), exp,
                                                   "(Some (T %s))" % _codes(printed) if printed is not None else "None"))
-        else:
+        elif kind == "W":
             rows.append("W %s %s %s %s %s %s" % (_codes(par[1]), b(par[2]), b(par[3]), b(par[4]), _codes(s), exp))
+        elif kind == "S":
+            rows.append("SM [%s] %s %s %s" % (";".join(_codes(x) for x in par[1]), b(par[2]), _codes(s), exp))
+        else:
+            rows.append("B %s %s %s %s %s" % (_codes(par[1]), b(par[2]), b(par[3]), _codes(s), exp))
     lines.append(";\n".join(rows) + "].")
     lines.append("Eval vm_compute in (bad cases 0).")
-    d = os.path.join(COQ, "Corr")
+    d = os.environ.get("VERIF_CORR_DIR") or os.path.join(COQ, "Corr")
     os.makedirs(d, exist_ok=True)
     path = os.path.join(d, "StmtBaseCases.v")
     with open(path, "w") as f:
         f.write("\n".join(lines) + "\n")
-    r = subprocess.run(["timeout", "600", "coqc", "-Q", COQ, "FV", path], capture_output=True, text=True, cwd=COQ)
+    extra = ["-Q", os.environ["VERIF_COQ_EXTRA"], "FV"] if os.environ.get("VERIF_COQ_EXTRA") else []   # development only
+    r = subprocess.run(["timeout", "600", "coqc", "-Q", COQ, "FV"] + extra + [path], capture_output=True, text=True, cwd=COQ)
     out = r.stdout + r.stderr
     dis = []
     if r.returncode != 0 or "= [" not in out:
@@ -160,7 +218,7 @@ def corr(seed, per_class):
         os.unlink(os.path.join(d, ".StmtBaseCases.aux"))
     except OSError:
         pass
-    return dict(cases=len(cases), disagreements=dis, end_classes=nend, word_classes=nword,
+    return dict(cases=len(cases), disagreements=dis, end_classes=nend, word_classes=nword, string_classes=nstr, bracket_classes=nbr,
                 not_modelled=["%s:%s (%s)" % x for x in skipped],
                 samples=[dict(cls=cases[3][1][0], input=cases[3][2], implementation=cases[3][3])] if len(cases) > 3 else [])
 
